@@ -6,7 +6,8 @@
 #[verifier::external_body] pub struct BinaryOp { _p: u64 }
 #[verifier::external_body] pub struct ClosureParam { _p: u64 }
 #[verifier::external_body] pub struct MySyntaxNodePtr { _p: u64 }
-#[verifier::external_body] #[derive(Clone, Copy)] pub struct ExprId { _p: u64 }       // hir::ExprId
+#[verifier::external_body] #[derive(Clone, Copy)] pub struct PackageId { _p: u32 }
+#[derive(Clone, Copy)] pub struct ExprId { pub pkg: PackageId, pub idx: u32 }        // hir::ExprId
 
 // env: only what the two functions read — the trait-impl table of the current package and of each imported package.
 // trait_impls is an IndexMap<(String, Ty), ImplDef>; only key membership matters.
@@ -40,10 +41,12 @@ impl PackageTypeEnv {
 pub fn resolve_trait_name<'a>(genv: &'a PackageTypeEnv, trait_name: &String) -> (r: Option<(String, &'a GlobalTypeEnv)>) { unimplemented!() }
 #[verifier::external_body]
 pub fn is_concrete_dyn_target(ty: &Ty) -> (r: bool) { unimplemented!() }
-// typeck results: the coercion is also recorded per expression (contents not modelled)
-#[verifier::external_body] pub struct TypeckResultsBuilder { _p: u64 }
-impl TypeckResultsBuilder {
-    #[verifier::external_body] pub fn push_coercion(&mut self, expr: ExprId, coercion: Coercion) { unimplemented!() }
+// typeck results: only the per-expression coercion lists (the TAST builder wraps the expression once PER recorded coercion)
+pub struct TypeckResults { pub coercions: Vec<Vec<Coercion>> }
+pub struct TypeckResultsBuilder { pub results: TypeckResults }
+// representation invariant: an expression carries at most one coercion (a value is wrapped into a dyn object at most once)
+pub open spec fn coercions_wf(r: TypeckResultsBuilder) -> bool {
+    forall|i: int| 0 <= i < r.results.coercions@.len() ==> (#[trigger] r.results.coercions@[i])@.len() <= 1
 }
 // the Typer: only its results builder is touched by the function under contract
 pub struct Typer { pub results: TypeckResultsBuilder }
